@@ -269,8 +269,8 @@ def r_provenance(ctx):
             res.ok()
         else:
             res.fail(p, "constructs-state", "a vector struct literal is built in a function that is not a constructor (returns %s)" % out.get("s"), span=ctx.span_of(p))
-    if len(ctor_fns) < 6:
-        res.coverage_lost("<crate>", "expected >= 6 functions constructing vector state, found %d" % len(ctor_fns))
+    if len(ctor_fns) < 3:
+        res.coverage_lost("<crate>", "expected >= 3 functions constructing vector state, found %d" % len(ctor_fns))
     # (2) constructors from a type: one consistent T
     for p, how in (("any_vec::AnyVec::new_in", "build"), ("any_vec::AnyVec::with_capacity_in", "build_with_size")):
         for tt, I in ctx.arms(p) or []:
@@ -372,7 +372,7 @@ def r_provenance(ctx):
         if ok:
             res.ok()
     for p in ("any_vec::AnyVec::clone_empty_in", "any_vec::AnyVec::clone_empty", "<any_vec::AnyVec as core::clone::Clone>::clone"):
-        for tt, I in ctx.arms(p, max_depth=0) or []:
+        for tt, I in ctx.arms(p) or []:
             tr = ret_tree(I) or {}
             v = tr.get(("clone_fn",))
             res.inst(sample={"copy": p, "clone_fn": str(v)}, func=p)
